@@ -453,4 +453,30 @@ def Circ.kahnLoop (c : Circ) : Nat → KState → List (Nat × Op)
 def Circ.iterKahn (c : Circ) : List (Nat × Op) :=
   c.kahnLoop (c.numOps + 1) ⟨c.front.foldr insertPt [], [], []⟩
 
+/-! ## `remove_all`, `get_slice` (added for the round-3 theorems; not used by the driver) -/
+
+/-- the points `(cycle, location[0])` of all operations satisfying `pred`, in iteration order -/
+def Circ.pointsOf (c : Circ) (pred : Op → Bool) : List (Int × Int) :=
+  c.iterCyc.filterMap (fun (k, o) => if pred o then some ((k : Int), (o.head : Int)) else none)
+
+/-- `remove_all(x)`: every occurrence disappears.  The Python pops `point(x)` until none is left;
+the harness replays it as ONE `batch_pop` of all matching points, which is this definition
+(`pred` = "equals the operation" or "has the gate"); unchanged when nothing matches. -/
+def Circ.removeAll (c : Circ) (pred : Op → Bool) : Circ :=
+  if (c.pointsOf pred).isEmpty then c else (c.batchPop (c.pointsOf pred)).1
+
+/-- the operations `get_slice` / `batch_pop` select at normalised points: those found, duplicates
+collapsed, by cycle and then `location[0]` (the expression used inside `batchPop`) -/
+def Circ.selected (c : Circ) (npts : List (Nat × Nat)) : List (Nat × Op) :=
+  let found := npts.filterMap (fun (k, q) => (c.cell k q).map (fun o => (k, o)))
+  let uniq := dedupOps found
+  (List.range c.numCycles).flatMap (fun k =>
+    sortBy Op.head ((uniq.filter (·.1 == k)).map (·.2)) |>.map (fun o => (k, o)))
+
+/-- `get_slice(points)`: IndexError for a point out of range or when every point is idle -/
+def Circ.getSlice (c : Circ) (pts : List (Int × Int)) : Except Err Circ :=
+  if !(pts.all (fun p => c.cycleInRange p.1 && c.qubitInRange p.2)) then .error .index else
+  let sel := c.selected (pts.map (fun p => (normIdx c.numCycles p.1, normIdx c.numQudits p.2)))
+  if sel.isEmpty then .error .index else .ok (subCircuit c.radixes (sel.map (·.2)))
+
 end BqVerif.Circ
